@@ -42,26 +42,36 @@ fn usage() -> ! {
     std::process::exit(2)
 }
 
-extern "C" {
-    fn signal(signum: i32, handler: extern "C" fn(i32)) -> usize;
-    fn setrlimit(resource: i32, rlim: *const [u64; 2]) -> i32;
-}
-
 /// SIGABRT: the code under test aborted the process (see report::aborted). Runs on the aborting
-/// thread, so the thread-local worker index identifies the case.
+/// thread (on its alternate signal stack), so the thread-local worker index identifies the case.
 extern "C" fn on_abort(_sig: i32) {
+    // give the handler room to work: lift the address-space limit that may be the cause
+    unsafe {
+        let mut lim = libc::rlimit { rlim_cur: 0, rlim_max: 0 };
+        if libc::getrlimit(libc::RLIMIT_AS, &mut lim) == 0 {
+            lim.rlim_cur = lim.rlim_max;
+            libc::setrlimit(libc::RLIMIT_AS, &lim);
+        }
+    }
     report::aborted(par::current_rank_of_this_thread());
 }
 
 fn main() {
     unsafe {
-        signal(6, on_abort);
-        // RLIMIT_AS (9 on Linux): code under test that allocates without bound (a list parser
+        let mut sa: libc::sigaction = std::mem::zeroed();
+        sa.sa_sigaction = on_abort as usize;
+        sa.sa_flags = libc::SA_ONSTACK;
+        libc::sigemptyset(&mut sa.sa_mask);
+        libc::sigaction(libc::SIGABRT, &sa, std::ptr::null_mut());
+        // Soft address-space limit: code under test that allocates without bound (a list parser
         // that makes no progress) then fails to allocate and aborts — which the handler turns into
-        // a verdict — instead of being killed by the kernel together with everything else
+        // a verdict — instead of being killed by the kernel together with everything else.
         let gib: u64 = std::env::var("MC_AS_LIMIT_GIB").ok().and_then(|s| s.parse().ok()).unwrap_or(40);
-        let lim = [gib << 30, gib << 30];
-        setrlimit(9, &lim);
+        let mut lim = libc::rlimit { rlim_cur: 0, rlim_max: 0 };
+        if libc::getrlimit(libc::RLIMIT_AS, &mut lim) == 0 {
+            lim.rlim_cur = (gib << 30).min(lim.rlim_max);
+            libc::setrlimit(libc::RLIMIT_AS, &lim);
+        }
     }
     // Quiet panic messages from the code under test: every call is wrapped in catch_unwind and
     // the payload is recorded; the default hook would flood stderr.
